@@ -170,7 +170,14 @@ type funcFields struct {
 	F func() string
 	N func() string
 	G func(int) string
+	// functions that panic: with a string, a number, an error
+	PS func() string
+	PI func() string
+	PE func() string
 }
+
+// Boom is a method that panics with a value that is no error.
+func (funcFields) Boom() string { panic("boom") }
 
 func newPerson() person {
 	return person{Name: "Ann", Age: 30, Tags: []string{"x", "y"}, secret: "s"}
@@ -584,7 +591,10 @@ func fixtureByID(id string) (stick.Value, error) {
 			return embOuter{Base: Base{ID: 7, Title: "ti"}, Own: "own"}, nil
 		}
 		if arg(1) == "funcs" {
-			return funcFields{F: func() string { return "x" }}, nil
+			return funcFields{F: func() string { return "x" },
+				PS: func() string { panic("ps") },
+				PI: func() string { panic(42) },
+				PE: func() string { panic(fmt.Errorf("pe")) }}, nil
 		}
 		if arg(1) == "emb" {
 			return embOuter{Base: Base{ID: 7, Title: "ti"}, hiddenBase: &hiddenBase{Code: 3}, Own: "own"}, nil
